@@ -596,7 +596,8 @@ func risky(q, script string) string {
 
 // ---------------------------------------------------------------- Exec
 
-func has(set map[string]bool, k string) bool { return set[k] }
+// set once a cycle along the first-element chain (which the shipped detector catches) went undetected
+var firstChainBroken bool
 
 func execValue(q, script string) hx.Result {
 	v := build(script)
@@ -655,6 +656,8 @@ func execValue(q, script string) hx.Result {
 			var o string
 			if cyc && q == "N" {
 				o = risky(q, script)
+			} else if cyc && q == "S" && firstChainBroken && g.cycleClass(cycle) == "cycle-on-first-element-chain" {
+				o = risky("s", script) // this tree no longer detects first-element cycles: do not unroll each of them for seconds
 			} else if q == "S" {
 				var b []byte
 				o, b = runSer(v)
@@ -688,6 +691,9 @@ func execValue(q, script string) hx.Result {
 			if len(set) != 1 || !set["err:cycle"] {
 				res.Fail = "a value with a reachable reference cycle is not (always) rejected as circular: outcomes " + trunc(ks, 80)
 				res.Class = g.cycleClass(cycle)
+				if res.Class == "cycle-on-first-element-chain" {
+					firstChainBroken = true
+				}
 			}
 			return res
 		}
@@ -805,6 +811,10 @@ func execLine(line string) hx.Result {
 	switch f[0] {
 	case "!S": // grandchild: one real call
 		debug.SetMaxStack(512 << 20)
+		o, _ := runSer(build(f[1]))
+		return hx.Result{Out: o}
+	case "!s": // same with a small stack: dies quickly instead of unrolling ~5*10^5 levels
+		debug.SetMaxStack(8 << 20)
 		o, _ := runSer(build(f[1]))
 		return hx.Result{Out: o}
 	case "!N":
